@@ -498,6 +498,55 @@ func checkC10(c *core.Ctx) {
 			})
 		}
 	}
+	// constructors hand out independent tensors: two results of the same call
+	// are distinct objects, and resetting / back-propagating one of them does
+	// not show on the other (no memoised "constant" shared between callers)
+	ctors := map[string]func(tr bool) (tensor.Tensor, error){
+		"Eye":      func(tr bool) (tensor.Tensor, error) { return tensor.Eye(3, rt.Conf(tr)) },
+		"Zeros":    func(tr bool) (tensor.Tensor, error) { return tensor.Zeros([]int{2, 2}, rt.Conf(tr)) },
+		"Ones":     func(tr bool) (tensor.Tensor, error) { return tensor.Ones([]int{2, 2}, rt.Conf(tr)) },
+		"Full":     func(tr bool) (tensor.Tensor, error) { return tensor.Full([]int{2, 2}, 2.5, rt.Conf(tr)) },
+		"ZerosNil": func(tr bool) (tensor.Tensor, error) { return tensor.Zeros(nil, rt.Conf(tr)) },
+		"TensorOf": func(tr bool) (tensor.Tensor, error) { return tensor.TensorOf([]float64{1, 2}, rt.Conf(tr)) },
+		"FullInit": func(tr bool) (tensor.Tensor, error) {
+			return initializers.NewFull(&initializers.FullConfig{Value: 1}).Init([]int{3})
+		},
+	}
+	for _, name := range []string{"Eye", "Zeros", "Ones", "Full", "ZerosNil", "TensorOf", "FullInit"} {
+		for trk := 0; trk < 2; trk++ {
+			name, trk, mk := name, trk, ctors[name]
+			c.Case(fmt.Sprintf("ctor-independent/%s/t%d", name, trk), true, func() core.Verdict {
+				a, err1 := mk(trk == 1)
+				b, err2 := mk(trk == 1)
+				if err1 != nil || err2 != nil {
+					return core.Fail("%s: %v %v", name, err1, err2)
+				}
+				if a == b {
+					return core.Fail("two calls of %s return the same tensor object", name)
+				}
+				sb := snapOf(b)
+				a.ResetGradContext(true)
+				if err := tensor.BackPropagate(a.Scale(2)); err != nil {
+					return core.Fail("BackPropagate: %v", err)
+				}
+				if d := diffSnap(sb, snapOf(b), false); d != "" {
+					return core.Fail("resetting and back-propagating one result of %s changed ANOTHER result of the same call: %s", name, d)
+				}
+				cc, err := mk(trk == 1)
+				if err != nil {
+					return core.Fail("%s: %v", name, err)
+				}
+				if d := diffSnap(sb, snapOf(cc), false); d != "" {
+					return core.Fail("a later call of %s returns a tensor in a different state than the first call did: %s", name, d)
+				}
+				a.ResetGradContext(false)
+				if d := diffSnap(sb, snapOf(b), false); d != "" {
+					return core.Fail("ResetGradContext(false) on one result of %s changed another: %s", name, d)
+				}
+				return core.Pass()
+			})
+		}
+	}
 	// components: losses, activations, layer, optimizer, metric
 	c.Case("write/components", true, func() core.Verdict { return c10Components() })
 
